@@ -158,6 +158,23 @@ func (x *fx) instr(in ssa.Instruction) {
 		x.safety("nilmap-write", x.describe(i.Map), fmt.Sprintf("(not (= %s 0))", m), i.Pos())
 		x.mapKeyHashable(i.Key, i.Pos())
 		x.writeTarget(m, x.describe(i.Map), i.Pos())
+		if root := x.rootContract(); root != nil && x.top {
+			for _, c := range root.OnWrite[x.describe(i.Map)] {
+				if c.Profile != "" && c.Profile != e.profile {
+					continue
+				}
+				oenv := x.envAt(st, i.Block(), nil, true)
+				oenv.pkg = e.pkgOf(root)
+				oenv.vars["value"] = TV{x.val(i.Value), i.Value.Type()}
+				oenv.vars["key"] = TV{x.val(i.Key), i.Key.Type()}
+				tv, err := oenv.eval(c.Expr)
+				if err != nil {
+					e.bindingError(FuncKey(x.fn), c, err)
+					continue
+				}
+				e.oblig("exposure", "exposure:"+x.describe(i.Map)+"["+x.describe(i.Key)+"]", c.Props, x.curReach, tv.T, x.pos(i.Pos()), c.Text)
+			}
+		}
 		x.mapStore(st, i.Map.Type(), m, x.val(i.Key), x.val(i.Value))
 	case *ssa.Range:
 		if _, ok := i.X.Type().Underlying().(*types.Map); ok {
@@ -194,8 +211,28 @@ func (x *fx) instr(in ssa.Instruction) {
 			x.tuples[i] = res
 		}
 	case *ssa.Go:
-		e.note("goroutine started in " + x.fn.Name() + " (body not interleaved; treated as a call with unknown frame)")
-		x.unknownEffect(&Effects{All: true, Why: "go statement in " + x.fn.Name()})
+		// a goroutine whose function has a contract is treated as a call of that
+		// contract at the spawn point (its effects are confined by its frame);
+		// interleavings are not modelled
+		handled := false
+		var gfn *ssa.Function
+		switch cal := i.Call.Value.(type) {
+		case *ssa.Function:
+			gfn = cal
+		case *ssa.MakeClosure:
+			gfn = cal.Fn.(*ssa.Function)
+		}
+		if gfn != nil {
+			if gc := e.P.Contracts.Funcs[FuncKey(gfn)]; gc != nil && !gc.Inline {
+				e.note("goroutine " + FuncKey(gfn) + " started in " + x.fn.Name() + ": treated as a call of its contract at the spawn point (interleavings not modelled)")
+				x.call(i)
+				handled = true
+			}
+		}
+		if !handled {
+			e.note("goroutine started in " + x.fn.Name() + " (body not interleaved; treated as a call with unknown frame)")
+			x.unknownEffect(&Effects{All: true, Why: "go statement in " + x.fn.Name()})
+		}
 	case *ssa.Defer:
 		x.defers = append(x.defers, i)
 	case *ssa.RunDefers:
